@@ -416,6 +416,10 @@ def judgeState (s : St) (es : List Ent) (a : Ans) : String :=
          ("search_parent_inverse", inverseClause f.dd.dom.lo f.dd.dom.hi a.xq),
          ("search_parent_quantile_in_domain", quantileInDomain f.dd.dom.lo f.dd.dom.hi (par.P f.dd.dom.lo) (par.P f.dd.dom.hi) a.xq),
          ("n_classes", nClassesOk d),
+         -- needs no parent and no conditioning: an inverted domain (audit F1) shows here
+         ("bounds_in_domain", boundsInDom d),
+         -- (the full clause `bounds_monotone_in_domain` is judged below, where the quantile's rounding is
+         -- small against the class widths: on domains of width 1e-13 qGamma is not monotone to the last bits)
          -- on a domain without mass both schemes give equal probabilities (exact); with mass the
          -- equal-interval masses are differences of pProb divided by the mass: judged where well-conditioned
          ("probs_sum_one", probsSumOne 1e-9 d || !(eqB || wc || !(cond > 0))),
@@ -425,7 +429,10 @@ def judgeState (s : St) (es : List Ent) (a : Ans) : String :=
         (if wc || fallback then
           [("bounds_monotone_in_domain", boundsMonoInDom d),
            ("value_in_own_class", !(rs && !(eqB && f.dd.median && !fallback)) || valuesInClass d),
-           ("value_in_own_class_median", !(rs && eqB && f.dd.median && !fallback) || valuesInClass d)]
+           ("value_in_own_class_median", !(rs && eqB && f.dd.median && !fallback) || valuesInClass d),
+           -- outside the guard `resolved` (boundary adjustment, separation of equal values) the clause is
+           -- judged too: its failures are the known finding C09-separated-value-outside-class
+           ("value_in_own_class_unresolved", rs || !eqB || (f.dd.median && !fallback) || valuesInClass d)]
          else []) ++
         -- theorem `when_possible_distinct_bounds` (in doubles: classes wider than the spacing of the doubles)
         (if f.dd.scheme == 3 && (f.dd.dom.hi - f.dd.dom.lo) / Float.ofNat f.dd.n > 1e-9 * (1 + absF f.dd.dom.lo + absF f.dd.dom.hi)
